@@ -1061,7 +1061,8 @@ _old_collect = TABLE['std::iter::Iterator::collect']
 
 def collect2(I, st, fr, t, a):
     it = a[0]
-    if isinstance(it, Struct) and it.ty in ('$SliceIter', '$Map', '$Filter', '$Cloned', '$FilterMap', '$Enumerate'):
+    if isinstance(it, Struct) and it.ty in ('$SliceIter', '$Map', '$Filter', '$Cloned', '$FilterMap', '$Enumerate', '$StepBy', '$Skip', '$Take', '$Rev',
+                                            '$Chain', '$Zip', '$TakeWhile', '$SkipWhile'):
         try:
             return _old_collect(I, st, fr, t, a)
         except Exception:
@@ -1759,14 +1760,14 @@ _old_drain = drain
 
 def drain2(I, st, it):
     if isinstance(it, Struct) and it.ty == '$Rev':
-        items, st = drain2(I, st, it.fields[0])
+        items, st = _mod.drain(I, st, it.fields[0])
         return list(reversed(items)), st
     if isinstance(it, Struct) and it.ty == '$Chain':
-        a_, st = drain2(I, st, it.fields[0])
-        b_, st = drain2(I, st, it.fields[1])
+        a_, st = _mod.drain(I, st, it.fields[0])
+        b_, st = _mod.drain(I, st, it.fields[1])
         return a_ + b_, st
     if isinstance(it, Struct) and it.ty in ('$Skip', '$Take'):
-        items, st = drain2(I, st, it.fields[0])
+        items, st = _mod.drain(I, st, it.fields[0])
         n = it.fields[1]
         if not (isinstance(n, BV) and n.known()) or not all(x[0] == 'elem' for x in items):
             raise from_undecided()('skip/take with symbolic count or items')
@@ -1776,7 +1777,7 @@ def drain2(I, st, it):
         # re-implement the recursive cases on top of drain2 so that nested adapters compose
         inner = it.fields[0]
         if isinstance(inner, Struct) and inner.ty in ('$Rev', '$Chain', '$Skip', '$Take'):
-            items, st = drain2(I, st, inner)
+            items, st = _mod.drain(I, st, inner)
             cell = ('static', 'drained:%d' % next(I.frame_counter))
             st.store[cell] = Seq(items)
             flat = Struct('$SliceIter', (Ref(cell), 0, 'owned'))
@@ -1945,7 +1946,8 @@ TABLE['core::str::<impl str>::chars'] = str_chars_text
 
 
 def _bottoms_in_slice(it):
-    while isinstance(it, Struct) and it.ty in ('$Enumerate', '$Map', '$Filter', '$Cloned', '$Rev', '$Skip', '$Take'):
+    while isinstance(it, Struct) and it.ty in ('$Enumerate', '$Map', '$Filter', '$Cloned', '$Rev', '$Skip', '$Take', '$StepBy', '$TakeWhile', '$SkipWhile',
+                                               '$FilterMap'):
         it = it.fields[0]
     return isinstance(it, Struct) and it.ty == '$SliceIter'
 
@@ -1955,7 +1957,7 @@ _drain_before_enum = drain
 
 def drain3(I, st, it):
     if isinstance(it, Struct) and it.ty == '$Enumerate':
-        items, st = drain3(I, st, it.fields[0])
+        items, st = _mod.drain(I, st, it.fields[0])
         out = []
         for k, x in enumerate(items):
             if x[0] != 'elem':
@@ -1964,7 +1966,7 @@ def drain3(I, st, it):
         return out, st
     if isinstance(it, Struct) and it.ty in ('$Map', '$Filter', '$Cloned') and isinstance(it.fields[0], Struct) \
             and it.fields[0].ty == '$Enumerate':
-        items, st = drain3(I, st, it.fields[0])
+        items, st = _mod.drain(I, st, it.fields[0])
         cell = ('static', 'drained:%d' % next(I.frame_counter))
         st.store[cell] = Seq(items)
         flat = Struct('$SliceIter', (Ref(cell), 0, 'owned'))
@@ -1981,7 +1983,8 @@ _prev_next_dispatch = next_dispatch
 def next_dispatch2(I, st, fr, t, a):
     r = a[0]
     it = I.read_at(st, r.cell, r.path) if isinstance(r, Ref) else r
-    if isinstance(it, Struct) and it.ty in ('$Enumerate', '$Map', '$Filter', '$Cloned') and _bottoms_in_slice(it) and isinstance(r, Ref):
+    if isinstance(it, Struct) and it.ty in ('$Enumerate', '$Map', '$Filter', '$Cloned', '$StepBy', '$Skip', '$Take', '$Rev', '$TakeWhile', '$SkipWhile') \
+            and _bottoms_in_slice(it) and isinstance(r, Ref):
         # a lazy adapter chain over a concrete sequence: evaluate it once (the closures of these adapters are pure: they
         # receive the items only) and continue as a plain owned iterator
         try:
@@ -2386,7 +2389,7 @@ def _option_leaves(I, v, cond=C1):
 
 def drain4(I, st, it):
     if isinstance(it, Struct) and it.ty == '$FilterMap':
-        items, st = drain4(I, st, it.fields[0])
+        items, st = _mod.drain(I, st, it.fields[0])
         out = []
         for x in items:
             gate = C1
@@ -2408,7 +2411,7 @@ def drain4(I, st, it):
         return out, st
     if isinstance(it, Struct) and it.ty in ('$Map', '$Filter', '$Cloned', '$Enumerate') and isinstance(it.fields[0], Struct) \
             and it.fields[0].ty == '$FilterMap':
-        items, st = drain4(I, st, it.fields[0])
+        items, st = _mod.drain(I, st, it.fields[0])
         cell = ('static', 'drained:%d' % next(I.frame_counter))
         st.store[cell] = Seq(items)
         flat = Struct('$SliceIter', (Ref(cell), 0, 'owned'))
@@ -2598,13 +2601,13 @@ _drain_before_zip = drain
 
 def drain5(I, st, it):
     if isinstance(it, Struct) and it.ty == '$Zip':
-        xs, st = drain5(I, st, it.fields[0])
-        ys, st = drain5(I, st, it.fields[1])
+        xs, st = _mod.drain(I, st, it.fields[0])
+        ys, st = _mod.drain(I, st, it.fields[1])
         if not all(x[0] == 'elem' for x in xs) or not all(y[0] == 'elem' for y in ys):
             raise from_undecided()('zip over conditional items')
         return [('elem', Struct('tuple', (x[1], y[1]))) for x, y in zip(xs, ys)], st
     if isinstance(it, Struct) and it.ty in ('$TakeWhile', '$SkipWhile'):
-        items, st = drain5(I, st, it.fields[0])
+        items, st = _mod.drain(I, st, it.fields[0])
         if not all(x[0] == 'elem' for x in items):
             raise from_undecided()('take_while over conditional items')
         out = []
@@ -2629,7 +2632,7 @@ def drain5(I, st, it):
         fs = list(it.fields)
         for k in range(min(2, len(fs))):
             if isinstance(fs[k], Struct) and fs[k].ty in ('$Zip', '$TakeWhile', '$SkipWhile'):
-                items, st = drain5(I, st, fs[k])
+                items, st = _mod.drain(I, st, fs[k])
                 cell = ('static', 'drained:%d' % next(I.frame_counter))
                 st.store[cell] = Seq(items)
                 fs[k] = Struct('$SliceIter', (Ref(cell), 0, 'owned'))
@@ -2639,3 +2642,251 @@ def drain5(I, st, it):
 
 drain = drain5
 _mod.drain = drain5
+
+
+# ---- a local iterator type over the set bits of a board (`struct SetSquares(u64)` with a hand-written `next`)
+def bit_iterator_contract(I, ty):
+    """'low' / 'high' when the local type `ty` (one u64 field, `impl Iterator<Item = Square>`) satisfies, decided from the MIR of
+    its `next`: on state 0 it returns None; on every state whose lowest (highest) set bit is i - other bits symbolic - it returns
+    Some(Square(i)) and leaves exactly the other bits.  Then iterating it yields the square of every set bit once, i.e. it is
+    the same abstract sequence map_bit_board_to_squares stands for.  None when the type is not of that kind."""
+    cache = I.__dict__.setdefault('_bititer', {})
+    if ty in cache:
+        return cache[ty]
+    cache[ty] = None
+    ti = I.types.get(ty)
+    nextfn = '<%s as std::iter::Iterator>::next' % ty
+    if not ti or ti.get('k') != 'adt' or ti.get('enum') or not ti.get('local') or nextfn not in I.fns:
+        return None
+    fields = ti['variants'][0]['fields']
+    if len(fields) != 1 or fields[0] != 'u64':
+        return None
+    from .mai import State, Undecided
+
+    def run(bits_):
+        st = State({})
+        cell = ('static', 'bititer:%d' % next(I.frame_counter))
+        st.store[cell] = Struct(ty, (BV(bits_),))
+        r, st2 = I.call_local(nextfn, [Ref(cell, (), True)], st)
+        return r, (st2.store[cell] if st2 is not None else None)
+
+    def family(low):
+        try:
+            r, after = run([C0] * 64)
+            if not (isinstance(r, Enum) and r.var == 0):
+                return False
+            for i in range(64):
+                if low:
+                    bits_ = [C0] * i + [C1] + [B.lit(('bititer', 'h%d' % j)) for j in range(i + 1, 64)]
+                else:
+                    bits_ = [B.lit(('bititer', 'h%d' % j)) for j in range(i)] + [C1] + [C0] * (63 - i)
+                r, after = run(bits_)
+                want = list(bits_)
+                want[i] = C0
+                if not (isinstance(r, Enum) and r.var == 1 and r.fields and r.fields[0] == Struct('square::Square', (BV.const(i, 8),))):
+                    return False
+                if not (isinstance(after, Struct) and isinstance(after.fields[0], BV) and
+                        all(x is y for x, y in zip(after.fields[0].bits, want))):
+                    return False
+            return True
+        except Undecided:
+            return False
+    cache[ty] = 'low' if family(True) else ('high' if family(False) else None)
+    I.ev('bit-iterator', ty, None, cache[ty])
+    return cache[ty]
+
+
+_drain_before_bititer = drain
+
+
+def drain6(I, st, it):
+    if isinstance(it, Struct) and not it.ty.startswith(('$', 'std::', 'core::', 'closure:', 'tuple')) and len(it.fields) == 1 \
+            and isinstance(it.fields[0], BV) and it.fields[0].w == 64 and bit_iterator_contract(I, it.ty):
+        bv = it.fields[0]
+        if bv.known():
+            order = range(64) if I._bititer[it.ty] == 'low' else range(63, -1, -1)
+            return [('elem', Struct('square::Square', (BV.const(i, 8),))) for i in order if (bv.uval() >> i) & 1], st
+        return [('bulk', bv, Struct('square::Square', (SIGMA,)))], st
+    if isinstance(it, Struct) and it.ty in ('$Map', '$Filter', '$Cloned', '$Enumerate', '$FilterMap', '$Rev') and it.fields \
+            and isinstance(it.fields[0], Struct) and not it.fields[0].ty.startswith('$') and len(it.fields[0].fields) == 1 \
+            and isinstance(it.fields[0].fields[0], BV) and bit_iterator_contract(I, it.fields[0].ty):
+        items, st = _mod.drain(I, st, it.fields[0])
+        cell = ('static', 'drained:%d' % next(I.frame_counter))
+        st.store[cell] = Seq(items)
+        return _drain_before_bititer(I, st, Struct(it.ty, (Struct('$SliceIter', (Ref(cell), 0, 'owned')),) + tuple(it.fields[1:])))
+    return _drain_before_bititer(I, st, it)
+
+
+drain = drain6
+_mod.drain = drain6
+
+
+# ---- contract facts used by parsers written with `next()` / `step_by` / `caps[i]`
+_straight_next_before_split = straight_next
+
+
+def straight_next2(I, st, fr, t, a):
+    r = a[0]
+    cur = I.read_at(st, r.cell, r.path) if isinstance(r, Ref) else None
+    if isinstance(cur, Struct) and cur.ty == '$Split':
+        # str::split yields at least one item (contract): the first `next()` of a fresh Split is Some
+        ty = ret_ty(I, fr, t) or OPT
+        base = 'it%d' % next(I.frame_counter)
+        item = I.fresh_value('%s[first]' % base, _payload_ty(I, ty))
+        st.store[r.cell] = I.update(st.store[r.cell], r.path, Struct('$OpaqueSeqIter', (base, 0)))
+        return some(item, ty), st
+    return _straight_next_before_split(I, st, fr, t, a)
+
+
+straight_next = straight_next2
+_mod.straight_next = straight_next2
+
+
+@summary('std::iter::Iterator::step_by')
+def iter_step_by(I, st, fr, t, a):
+    n = a[1]
+    if isinstance(n, BV) and n.known() and n.uval() > 0 and fr is not None:
+        key = (fr.fname, t['at'], (t.get('res') or {}).get('path', ''))        # step_by panics only for a step of 0
+        I.asserts_ok[key] = I.asserts_ok.get(key, 0) + 1
+    it = a[0]
+    if isinstance(it, Struct) and it.ty in ('$SliceIter', '$Map', '$Filter', '$Cloned', '$Enumerate', '$Rev', '$Skip', '$Take', '$Chain', '$Zip') \
+            and isinstance(n, BV) and n.known() and n.uval() > 0:
+        return Struct('$StepBy', (it, n)), st
+    return Tok('$StepBy%d' % next(I.frame_counter), ret_ty(I, fr, t)), st
+
+
+_drain_before_stepby = drain
+
+
+def drain7(I, st, it):
+    if isinstance(it, Struct) and it.ty == '$StepBy':
+        items, st = _mod.drain(I, st, it.fields[0])
+        if not all(x[0] == 'elem' for x in items):
+            raise from_undecided()('step_by over conditional items')
+        return items[::it.fields[1].uval()], st
+    return _drain_before_stepby(I, st, it)
+
+
+drain = drain7
+_mod.drain = drain7
+PREFIX.append(('<std::iter::StepBy<I> as std::iter::Iterator>::next', next_dispatch))
+PREFIX.append(('<std::iter::Skip<I> as std::iter::Iterator>::next', next_dispatch))
+
+
+def captures_index(I, st, fr, t, a):
+    """`caps[i]`: panics when group i did not take part in the match - never for group 0 and for groups that are not under
+    `?`, `*` or an alternation (the same contract `caps.get(i).unwrap()` is discharged by)"""
+    cap = I.deref(st, a[0])
+    k = a[1]
+    I.ev('captures-get', fr.fname if fr else None, t.get('at'), k.uval() if isinstance(k, BV) and k.known() else None)
+    if isinstance(cap, Struct) and cap.ty == '$Captures' and cap.fields[0] is not None and isinstance(k, BV) and k.known() \
+            and (k.uval() == 0 or k.uval() in mandatory_groups(cap.fields[0])) and fr is not None:
+        key = (fr.fname, t['at'], (t.get('res') or {}).get('path', ''))
+        I.asserts_ok[key] = I.asserts_ok.get(key, 0) + 1
+    cell = ('static', 'capidx:%d' % next(I.frame_counter))
+    st.store[cell] = Tok('match%d' % next(I.frame_counter), 'str')
+    return Ref(cell), st
+
+
+TABLE["<regex::Captures<'t> as std::ops::Index<usize>>::index"] = captures_index
+
+
+# ---- stepping a filtered walk of the history list by hand: `let mut it = hist.iter().filter(p); it.next().is_some() && it.next().is_some()`
+_straight_next_before_hist = straight_next
+
+
+def straight_next3(I, st, fr, t, a):
+    r = a[0]
+    cur = I.read_at(st, r.cell, r.path) if isinstance(r, Ref) else None
+    k = 0
+    flt = cur
+    if isinstance(cur, Struct) and cur.ty == '$FilterHist':
+        flt, k = cur.fields
+    if isinstance(flt, Struct) and flt.ty == '$Filter' and isinstance(flt.fields[0], Struct) and flt.fields[0].ty.startswith('linked_list::Iter'):
+        # the (k+1)-th `next()` is Some exactly when at least k + 1 entries satisfy the predicate: the canonical count predicate
+        ty = ret_ty(I, fr, t) or OPT
+        cnt, st = filter_count(I, st, fr, t, [flt])
+        ge = I.binop('Ge', cnt, BV.const(k + 1, 64), fr.fname if fr is not None else None, t.get('at'))
+        st.store[r.cell] = I.update(st.store[r.cell], r.path, Struct('$FilterHist', (flt, k + 1)))
+        return I.merge(ge.bits[0], some(Ref(('static', 'histelem')), ty), none(ty)), st
+    return _straight_next_before_hist(I, st, fr, t, a)
+
+
+straight_next = straight_next3
+_mod.straight_next = straight_next3
+
+
+@summary('std::iter::Iterator::count')
+def iter_count(I, st, fr, t, a):
+    """count of a capped filtered history walk (`filter(p).take(n).count()`) is min(#matches, n), built from the canonical
+    "at least j matches" atoms so that `== n` is the same predicate as `filter(p).count() >= n`; otherwise the number of items"""
+    it = a[0]
+    if isinstance(it, Struct) and it.ty == '$Take' and isinstance(it.fields[1], BV) and it.fields[1].known() and it.fields[1].uval() <= 8 \
+            and isinstance(it.fields[0], Struct) and it.fields[0].ty == '$Filter' and isinstance(it.fields[0].fields[0], Struct) \
+            and it.fields[0].fields[0].ty.startswith('linked_list::Iter'):
+        cnt, st = filter_count(I, st, fr, t, [it.fields[0]])
+        v = BV.const(0, 64)
+        for j in range(1, it.fields[1].uval() + 1):
+            ge = I.binop('Ge', cnt, BV.const(j, 64), fr.fname if fr is not None else None, t.get('at'))
+            v = I.merge(ge.bits[0], BV.const(j, 64), v)
+        return v, st
+    if isinstance(it, Struct) and it.ty == '$Filter':
+        return filter_count(I, st, fr, t, a)
+    items, st = drain(I, st, it)
+    if all(x[0] == 'elem' for x in items):
+        return BV.const(len(items), 64), st
+    return Term('count', (Seq(items),), 64, 0, len(items)), st
+
+
+@summary('core::bool::<impl bool>::then', 'std::bool::<impl bool>::then')
+def bool_then(I, st, fr, t, a):
+    """`cond.then(|| v)`: Some(v) under cond (the closure runs only then: it is evaluated under cond as path condition), else None"""
+    c = a[0]
+    ty = ret_ty(I, fr, t) or OPT
+    if not isinstance(c, BV):
+        raise from_undecided()('bool::then on %r' % (c,))
+    bit = c.bits[0]
+    d = I.decide(bit, st.pc)
+    if d is False:
+        return none(ty), st
+    saved = st.pc
+    st.pc = saved if d is True else saved + (bit,)
+    try:
+        v, st2 = I.call_closure(st, a[1], [])
+    finally:
+        st.pc = saved
+    if st2 is None:
+        return none(ty), st
+    st2.pc = saved
+    if d is True:
+        return some(v, ty), st2
+    return I.merge(bit, some(v, ty), none(ty)), st2
+
+
+@summary('core::bool::<impl bool>::then_some', 'std::bool::<impl bool>::then_some')
+def bool_then_some(I, st, fr, t, a):
+    c = a[0]
+    ty = ret_ty(I, fr, t) or OPT
+    if not isinstance(c, BV):
+        raise from_undecided()('bool::then_some on %r' % (c,))
+    return I.merge(c.bits[0], some(a[1], ty), none(ty)), st
+
+
+def _wrapping_neg(I, st, fr, t, a):
+    """two's complement negation bit by bit (`(c as u64).wrapping_neg()` is the all-ones / all-zeros mask of a condition)"""
+    x = a[0]
+    if isinstance(x, BV):
+        if x.known():
+            return BV.const((-x.uval()) & ((1 << x.w) - 1), x.w), st
+        out = []
+        carry = C1
+        for b_ in x.bits:
+            nb = B.bnot(b_)
+            out.append(B.bxor(nb, carry))
+            carry = B.band(nb, carry)
+        return BV(out, x.signed), st
+    return Term('wrapping', ('neg', x), getattr(x, 'w', 64)), st
+
+
+for _ty in ('u8', 'u16', 'u32', 'u64', 'usize', 'u128', 'i32', 'i64'):
+    TABLE['core::num::<impl %s>::wrapping_neg' % _ty] = _wrapping_neg
